@@ -47,13 +47,18 @@ fn explore(case: &Case, report: &Report, find_trace: Option<&Vec<String>>) -> u6
                     shuttle::thread::spawn(move || {
                         (0..per)
                             .map(|_| {
-                                Message::signal("/p", "a.b", "S")
-                                    .unwrap()
-                                    .build(&())
-                                    .unwrap()
-                                    .primary_header()
-                                    .serial_num()
-                                    .get()
+                                // a panic while building (e.g. a zero serial hitting NonZeroU32)
+                                // is recorded as serial 0
+                                vcommon::catch(|| {
+                                    Message::signal("/p", "a.b", "S")
+                                        .unwrap()
+                                        .build(&())
+                                        .unwrap()
+                                        .primary_header()
+                                        .serial_num()
+                                        .get()
+                                })
+                                .unwrap_or(0)
                             })
                             .collect::<Vec<u32>>()
                     })
